@@ -21,6 +21,9 @@ pub enum Sh {
     ISteps,        // C09 iterator history: list of step codes
     Small(u32),    // small unsigned value below the bound
     BitSize,       // C18 bit size
+    SmallU(u32),   // small unsigned value below the bound, as Arg::U
+    Exp,           // C12 exponent: one byte, or (for the trivial bases) up to two digits
+    Toks,          // C17 token stream: list of (kind, value)
 }
 
 pub struct OpSpec {
@@ -61,7 +64,16 @@ pub const OPS: &[OpSpec] = &[
     OpSpec { op: "iter", owner: "C09", shape: &[Sh::Z(5), Sh::ISteps, Sh::Small(4), Sh::Small(4)] },
     OpSpec { op: "bits", owner: "C18", shape: &[Sh::B(96), Sh::U, Sh::BitSize] },
     OpSpec { op: "range", owner: "C18", shape: &[Sh::B(96), Sh::U, Sh::Z(3), Sh::Z(3)] },
+    OpSpec { op: "fromf64", owner: "C08", shape: &[Sh::U] },
+    OpSpec { op: "pow", owner: "C12", shape: &[Sh::Z(2), Sh::Exp] },
+    OpSpec { op: "ser", owner: "C17", shape: &[Sh::Z(8)] },
+    OpSpec { op: "de", owner: "C17", shape: &[Sh::Toks, Sh::Small(6), Sh::I, Sh::Small(5)] },
+    OpSpec { op: "value", owner: "C19", shape: &[Sh::Z(6), Sh::SmallU(255)] },
+    OpSpec { op: "abs_sub", owner: "C19", shape: &[Sh::Z(6), Sh::Z(6)] },
+    OpSpec { op: "pair", owner: "C19", shape: &[Sh::Sign3, Sh::N(6)] },
 ];
+
+const TOK_TABLE: [u64; 12] = [0, 1, 2, 0x7fff_ffff, 0x8000_0000, 0xffff_fffe, 0xffff_ffff, 0x1_0000_0000, 0x1_0000_0001, 0xffff_ffff_0000_0000, u64::MAX - 1, u64::MAX];
 
 const I_TABLE: [i128; 24] = [
     0, 1, -1, 2, -2, 127, -128, 255, 256, 65535, i32::MAX as i128, i32::MIN as i128, u32::MAX as i128, u32::MAX as i128 + 1,
@@ -184,6 +196,27 @@ pub fn decode(data: &[u8], allowed: &[usize]) -> Option<Case> {
                 let v = c.byte() as u128;
                 Arg::U(match b % 4 { 0 => v % 131, 1 => (v % 65) * 32 + (b as u128 / 4) % 3, 2 => (v % 33) * 64 + (b as u128 / 4) % 3, _ => v * 8 + (b as u128 / 4) % 8 })
             }
+            Sh::SmallU(m) => Arg::U((c.byte() as u32 % m) as u128),
+            Sh::Exp => {
+                let k = c.byte();
+                if k % 4 < 3 {
+                    let e = c.byte() as u64;
+                    Arg::N(if e == 0 { vec![] } else { vec![e] })
+                } else {
+                    Arg::N(c.digits(2))
+                }
+            }
+            Sh::Toks => {
+                let n = (c.byte() as usize) % 14;
+                let mut toks = vec![];
+                for _ in 0..n {
+                    let kind = (c.byte() % 3) as i128;
+                    let s = c.byte();
+                    let val = if (s as usize) < TOK_TABLE.len() * 8 { TOK_TABLE[s as usize % TOK_TABLE.len()] } else { c.u64() };
+                    toks.push(Arg::L(vec![Arg::I(kind), Arg::U(val as u128)]));
+                }
+                Arg::L(toks)
+            }
             Sh::Steps => {
                 let n = (c.byte() as usize) % 25;
                 let mut steps = vec![];
@@ -291,7 +324,22 @@ pub fn encode(case: &Case, allowed: &[usize]) -> Option<Vec<u8>> {
             }
             (Sh::Sign3, Arg::I(v)) => out.push((*v + 1) as u8),
             (Sh::Zero, Arg::U(_)) => {}
-            (Sh::ISteps, _) | (Sh::Small(_), _) | (Sh::BitSize, _) => return None, // fuzz-only shapes: no seed export
+            (Sh::SmallU(m), Arg::U(v)) => {
+                if *v >= m as u128 {
+                    return None;
+                }
+                out.push(*v as u8)
+            }
+            (Sh::Exp, Arg::N(v)) => {
+                if v.is_empty() || (v.len() == 1 && v[0] <= 255) {
+                    out.push(0);
+                    out.push(v.first().copied().unwrap_or(0) as u8);
+                } else {
+                    out.push(3);
+                    enc_digits(&mut out, v, 2)?;
+                }
+            }
+            (Sh::ISteps, _) | (Sh::Small(_), _) | (Sh::BitSize, _) | (Sh::Toks, _) => return None, // fuzz-only shapes: no seed export
             (Sh::Steps, Arg::L(steps)) => {
                 if steps.len() > 24 {
                     return None;
